@@ -435,6 +435,33 @@ def c17_b64(tier, seed):
             _viol(r, "c17.model-differs", {"model": m0.to_text()})
         if m1.to_b64() != s:
             _viol(r, "c17.second-encoding-differs", {"model": m0.to_text()})
+        # models whose state holds numpy integers: the result of assume() (bounds computed with numpy), thresholds and
+        # bounds given as numpy values
+        import numpy as np
+        lv = leaves_of(m0)
+        derived = []
+        if lv:
+            v0 = lv[0]
+            try:
+                derived.append(("assume", m0.assume({v0.id: int(v0.bounds.lower)})))
+            except Exception:
+                pass
+        try:
+            derived.append(("numpy-threshold", pg.AtLeast(np.int64(1), [m0, puan.variable("zz9", bounds=np.array([0, 3]))], variable="NPY")))
+        except Exception:
+            pass
+        for kind, d0 in derived:
+            if is_var(d0):
+                continue
+            try:
+                d1 = pg.from_b64(d0.to_b64())
+            except BaseException as e:
+                _viol(r, "c17.roundtrip-raises", {"model": d0.to_text(), "built_by": kind}, error=repr(e)[:200])
+                continue
+            r["evaluations"] += 1
+            r["_seen"].add(("derived", kind))
+            if d0.to_text() != d1.to_text() or type(d0) is not type(d1):
+                _viol(r, "c17.model-differs", {"model": d0.to_text(), "built_by": kind})
     rng = random.Random(seed + 43)
     n = 25 if tier == "quick" else 150
     for k in range(n):
